@@ -1,7 +1,7 @@
 (** The statements of Props/C17.v, proved from the invariants. *)
 From Coq Require Import List String Bool Arith.
 From Thunder Require Import Lib.Json DiffMerge.Model Server.Model Server.Spec Server.Proofs Server.ProofsLife
-     Server.ProofsLog Server.Witness.
+     Server.ProofsLog Server.Witness Server.Release Server.ProofsRelease.
 Import ListNotations.
 
 Lemma map_invariant_l : forall cfg s, c_fix_mutdup cfg = true -> reachable cfg s ->
@@ -78,3 +78,35 @@ Lemma reachable_rich_l :
   exists s, run (repaired 5) init h_rich = Some s /\ List.length (st_subs s) = 4 /\ List.length (st_tasks s) = 1
             /\ st_pend s <> None /\ List.length (st_out s) = 3 /\ sub_count s = 3.
 Proof. exact rich_reachable. Qed.
+
+(** * A failing socket write *)
+
+Lemma failed_write_closes_socket_l : forall s e, st_wfail s = true ->
+  st_out (push_out s e) = st_out s /\ st_sockclosed (push_out s e) = true.
+Proof. intros s e W. unfold push_out; cbn. rewrite W. split; [reflexivity | apply orb_true_r]. Qed.
+
+Lemma close_always_possible_l : forall cfg s, st_closed s = false -> st_pend s = None ->
+  exists s', step cfg s LSocketClose = Some s' /\ st_closed s' = true.
+Proof.
+  intros cfg s C P. cbn [step]. unfold ready0. rewrite C, P. cbn. eexists. split; reflexivity.
+Qed.
+
+Lemma socket_stays_closed_l : forall cfg s l s', step cfg s l = Some s' -> st_sockclosed s = true -> st_sockclosed s' = true.
+Proof. intros cfg s l s' Hs C. destruct l; crush_step Hs; rewrite ?C; auto. Qed.
+
+(** * Release *)
+
+Lemma cleanup_at_most_once_l : forall cfg s rs, reachableR cfg (s, rs) ->
+  NoDup (rs_released rs) /\
+  forall e, In e (rs_entries rs) -> (In (re_res e) (rs_released rs) <-> re_phase e = RRel).
+Proof. exact cleanup_at_most_once. Qed.
+
+Lemma released_when_stopped_l : forall cfg s rs e, reachableR cfg (s, rs) ->
+  In e (rs_entries rs) -> stopped_in s (re_rid e) = true ->
+  re_phase e = RRel /\ In (re_res e) (rs_released rs).
+Proof. exact released_when_stopped. Qed.
+
+Lemma all_released_after_close_l : forall cfg s rs e, c_fix_mutdup cfg = true -> reachableR cfg (s, rs) ->
+  st_closed s = true -> In e (rs_entries rs) ->
+  re_phase e = RRel /\ In (re_res e) (rs_released rs) /\ NoDup (rs_released rs).
+Proof. exact all_released_after_close. Qed.
